@@ -586,3 +586,34 @@ Theorem machine_simulates_list env code P :
     | h => exists v, verdict_of h = Some v /\ step (e_ctx env) P m = Done v m /\ final_ok h m
     end.
 Proof. intros LK TG pc stk st m c'. exact (sim_step env code P LK TG pc stk st m c'). Qed.
+
+(* a checker for [stack_bounded] on terminating runs (for examples) *)
+Fixpoint bounded_run (fuel : nat) (env : denv) (code : list comp) (c : lconf) : bool :=
+  match c with
+  | LAt _ stk _ =>
+      (List.length stk <=? STACK_MAX)%nat &&
+      match fuel with
+      | O => false
+      | S f => match lstep env code c with Some c' => bounded_run f env code c' | None => true end
+      end
+  | _ => true
+  end.
+
+Lemma bounded_run_sound env code : forall fuel c, bounded_run fuel env code c = true -> stack_bounded env code c.
+Proof.
+  induction fuel as [|f IH]; intros c H pc stk st R.
+  - destruct c as [pc0 stk0 st0| | | | |]; cbn [bounded_run] in H.
+    + rewrite andb_false_r in H. discriminate H.
+    + apply lstar_from_final in R; [discriminate R|reflexivity].
+    + apply lstar_from_final in R; [discriminate R|reflexivity].
+    + apply lstar_from_final in R; [discriminate R|reflexivity].
+    + apply lstar_from_final in R; [discriminate R|reflexivity].
+    + apply lstar_from_final in R; [discriminate R|reflexivity].
+  - destruct c as [pc0 stk0 st0| | | | |];
+      try (apply lstar_from_final in R; [discriminate R|reflexivity]).
+    cbn [bounded_run] in H. apply andb_true_iff in H as [Hh Hn]. apply Nat.leb_le in Hh.
+    remember (LAt pc0 stk0 st0) as c0 eqn:E0. remember (LAt pc stk st) as c1 eqn:E1.
+    destruct R as [c|c c' c'' S1 R'].
+    + subst c. injection E1 as <- <- <-. exact Hh.
+    + subst c c''. rewrite S1 in Hn. exact (IH c' Hn pc stk st R').
+Qed.
